@@ -205,11 +205,18 @@ impl<'w> XSys<'w> {
         })
     }
 
+    /// the connection type a peer is reported with must not matter to any query: all four occur
     fn kad(&self, p: u64, addrs: &[u64]) -> KademliaPeer {
+        let connection = match (p + addrs.len() as u64) % 4 {
+            0 => ConnectionType::NotConnected,
+            1 => ConnectionType::Connected,
+            2 => ConnectionType::CanConnect,
+            _ => ConnectionType::CannotConnect,
+        };
         KademliaPeer::new(
             self.peers[p as usize],
             addrs.iter().map(|x| self.w.addrs[*x as usize].clone()).collect(),
-            ConnectionType::NotConnected,
+            connection,
         )
     }
 
